@@ -639,6 +639,11 @@ pub fn compare_examined(pred: &Pred, run: &Run) -> Option<Diff> {
         }
     }
     for v in &pred.skipped_entries {
+        // a repeated member name gives two nodes one path (e.g. the tag entry and a second
+        // entry named like a skipped field `type`): the path no longer says which was examined
+        if run.nodes.iter().filter(|n| &n.path == v).count() > 1 {
+            continue;
+        }
         if examined.contains(v) {
             return Some(Diff { rule: "skipped-field-read-the-payload", detail: format!("the entry at {:?} carries the name of a skipped field and was examined", render_path(v)), loc: v.clone() });
         }
